@@ -229,7 +229,9 @@ def run_case(case):
                         bad("frame", X, x, "non-random field %s changed from %r to %r" % (name, X[name], vals.get(name)),
                             vals.get(name), X[name])
             # ---------------- C01
-            if 'c01' in oracles and out[0] == 'ok':
+            if 'c01' in oracles and out[0] == 'ok' and not vals:
+                bad("read_raises", X, x, "the call returned but reading the fields raised: %r" % (mism,), list(mism or []), "readable values")
+            elif 'c01' in oracles and out[0] == 'ok':
                 if mism is not None:
                     bad("read_paths", X, x, "read paths disagree: %r" % (mism,), list(mism), "equal")
                 okv = True
@@ -295,7 +297,7 @@ def run_case(case):
                                 bad("unmentioned_not_full", X, x,
                                     "field %s is mentioned by no constraint but its range %r omits %r" % (n, b, miss2[:6]),
                                     {"field": n, "range": b}, "whole type")
-            if out[0] == 'ok':
+            if out[0] == 'ok' and vals:
                 reached.add(tuple(vals[n] for n in rnames))
             outcomes.add((out[0], freeze(vals) if out[0] == 'ok' else out[1:]))
         if st.get("capped"):
